@@ -235,7 +235,9 @@ def threads(ctx, P, b, small=False, b_block=False):
     k.files["/proc/stat"] = "cpu  1 2 3 4 5 6 7 8 9 10\ncpu0 1 2 3 4 5 6 7 8 9 10\nbtime 1000\n"
     V = Versions(ctx, k)
     V.install()
-    S = sched.Scheduler(ctx, budget=P)
+    # with two or more pre-emptions the yield points are the lines of psutil/__init__.py and _common.py (oneshot(), the memoize wrapper,
+    # cache activation): the parsing code of _pslinux.py then runs atomically; with one pre-emption every psutil line is a yield point
+    S = sched.Scheduler(ctx, budget=P, files={simk.REPO + "/psutil/__init__.py", simk.REPO + "/psutil/_common.py"}) if P >= 2 and small else sched.Scheduler(ctx, budget=P)
     with k.installed(extra=[(psutil, "threading", sched.ThreadingProxy(S))]):
         p = psutil.Process(P_)
         V.holder["proc"] = p._proc
